@@ -52,7 +52,9 @@ def begin_case(case):
         meas_pt=str(rng.choice(["tuple", "list", "ndarray", "ndarray", "single-typed", "single-typed array"])),
         levels=str(rng.choice(["asis", "asis", "ndarray"])),
         profiles=str(rng.choice(["tuple", "list"])),
-        srf_flx=str(rng.choice(["C", "C", "F", "strided"])),
+        srf_flx=str(rng.choice(["C", "C", "F", "strided", "C", "F", "strided", "bigendian", "readonly"])),
+        # heights and profiles as they come out of binary files / memory maps: big-endian float64, read-only (same values)
+        column=str(rng.choice(["asis", "asis", "asis", "asis", "bigendian", "readonly", "bigendian_z_only", "bigendian_one_profile"])),
         scalars=str(rng.choice(["python", "numpy"])),
         decoys=bool(rng.random() < 0.3),
         threads=int(rng.choice([1, 1, 1, 1, 1, 1, 1, 1, 2, 3])),
@@ -111,6 +113,36 @@ def _spell(kw):
             big = np.full((q.shape[0] * 2, q.shape[1] * 2 + 1), np.nan)
             big[::2, 1::2] = q
             kw["srf_flx"] = big[::2, 1::2]
+        elif sp["srf_flx"] == "bigendian":
+            kw["srf_flx"] = q.astype(">f8")
+        elif sp["srf_flx"] == "readonly":
+            ro = np.array(q, copy=True)
+            ro.flags.writeable = False
+            kw["srf_flx"] = ro
+    col = sp.get("column", "asis")
+    if col != "asis" and isinstance(kw.get("z"), np.ndarray) and isinstance(kw.get("profiles"), (tuple, list)) and all(isinstance(a, np.ndarray) and a.dtype == np.float64 for a in kw["profiles"]) and kw["z"].dtype == np.float64:
+        def _be(a):
+            return _memo(("be", id(a)), lambda: a.astype(">f8"))
+
+        def _ro(a):
+            def mk():
+                b = np.array(a, copy=True)
+                b.flags.writeable = False
+                return b
+            return _memo(("ro", id(a)), mk)
+
+        _keep = _CASE["memo"].setdefault("_keepalive", [])
+        _keep.extend([kw["z"], *kw["profiles"]])   # ids stay unique while the case runs
+        typ = type(kw["profiles"])
+        if col == "bigendian":
+            kw["z"], kw["profiles"] = _be(kw["z"]), typ(_be(a) for a in kw["profiles"])
+        elif col == "readonly":
+            kw["z"], kw["profiles"] = _ro(kw["z"]), typ(_ro(a) for a in kw["profiles"])
+        elif col == "bigendian_z_only":
+            kw["z"] = _be(kw["z"])
+        elif col == "bigendian_one_profile":
+            kw["profiles"] = typ(_be(a) if i == 4 else a for i, a in enumerate(kw["profiles"]))
+        purity._count(f"column_given_as:{col}")
     if sp.get("flags", "bool") != "bool":
         # switches the way a caller may hold them: the result of a numpy comparison (numpy.bool_) or 0 / 1
         for name in ("footprint", "analytic"):
